@@ -1,8 +1,9 @@
-"""State of the translator tie of the simple trainer detectors (C05), as obligations
-for the evidence: does harness/translate_detect.py accept the current sources, and do
-coq/theories/DetectGenProofs.v / DetectGenInst.v check against the regenerated
-coq/gen/Detect_gen.v.  When one does not, the failing file is compiled once more (into
-a scratch directory) to name the theorem that no longer checks."""
+"""State of the translator ties of the trainer detectors (C05), as obligations for the
+evidence: do harness/translate_detect.py (simple detectors, PCFGPasswordParser.parse) and
+harness/translate_detect2.py (multi-word detector, e-mail / website / keyboard-walk
+detectors) accept the current sources, and do the equality / instance theories check
+against the regenerated coq/gen/Detect*_gen.v.  When one does not, the failing file is
+compiled once more (into a scratch directory) to name the theorem that no longer checks."""
 import os
 import re
 import shutil
@@ -11,8 +12,18 @@ import tempfile
 
 import common
 import translate_detect
+import translate_detect2
 
 FILES = ["theories/DetectGenProofs.v", "theories/DetectGenInst.v"]
+# second translator: per group the generated file and the theories that depend on it (in build order);
+# DetectGenInst2.v depends on all groups
+GROUPS2 = [
+    ("mw", "gen/DetectMw_gen.v", ["theories/DetectGenProofsMw.v"]),
+    ("email", "gen/DetectEmail_gen.v", ["theories/DetectGenProofsEmail.v"]),
+    ("web", "gen/DetectWeb_gen.v", ["theories/DetectGenProofsWeb.v"]),
+    ("kbd", "gen/DetectKbd_gen.v", ["theories/DetectGenProofsKbd.v"]),
+]
+LAST2 = ["theories/DetectGenInst2.v"]
 
 
 def _enclosing(path, line):
@@ -29,28 +40,45 @@ def _enclosing(path, line):
 
 def status():
     """-> list of (name, ok, detail) correspondence-style obligations"""
+    out = _status(translate_detect.render, "harness/translate_detect.py", "gen/Detect_gen.v", FILES, "")
+    ok_all = all(ok for _, ok, _ in out)
+    for key, gen, files in GROUPS2:
+        st = _status(translate_detect2.GROUPS[key][1], "harness/translate_detect2.py (%s)" % key, gen, files, ":" + key)
+        ok_all = ok_all and all(ok for _, ok, _ in st)
+        out.extend(st)
+    if ok_all:
+        out.extend(_files(LAST2, "gen/Detect*_gen.v"))
+    return out
+
+
+def _status(render, who, gen, files, tag):
     out = []
     try:
-        translate_detect.render()
-        out.append(("source-tie:translation-accepts-current-source", True, ""))
+        render()
+        out.append(("source-tie%s:translation-accepts-current-source" % tag, True, ""))
     except Exception as e:
-        out.append(("source-tie:translation-accepts-current-source", False,
-                    "harness/translate_detect.py refuses the current source (outside its subset): %s" % e))
+        out.append(("source-tie%s:translation-accepts-current-source" % tag, False,
+                    "%s refuses the current source (outside its subset): %s" % (who, e)))
         return out
-    gen_vo = os.path.join(common.COQ, "gen", "Detect_gen.vo")
+    gen_vo = os.path.join(common.COQ, gen[:-2] + ".vo")
     if not os.path.exists(gen_vo):
-        rc, so, se = common.coqc_file("gen/Detect_gen.v", timeout=300, extra_q=())
-        out.append(("source-tie:gen/Detect_gen.v-compiles", False, "the translated definitions do not type-check: %s"
+        rc, so, se = common.coqc_file(gen, timeout=300, extra_q=())
+        out.append(("source-tie:%s-compiles" % gen, False, "the translated definitions do not type-check: %s"
                     % (so + se).strip()[-600:]))
         for ext in (".vo", ".vos", ".vok", ".glob"):
             try:
-                os.remove(os.path.join(common.COQ, "gen", "Detect_gen" + ext))
+                os.remove(os.path.join(common.COQ, gen[:-2] + ext))
             except OSError:
                 pass
         return out
+    return out + _files(files, gen)
+
+
+def _files(files, gen):
+    out = []
     scratch = None
     try:
-        for rel in FILES:
+        for rel in files:
             vo = os.path.join(common.COQ, rel[:-2] + ".vo")
             if os.path.exists(vo):
                 out.append(("source-tie:%s" % rel, True, ""))
@@ -67,8 +95,8 @@ def status():
             elif m and m.group(1) == rel:
                 thm = _enclosing(os.path.join(common.COQ, rel), int(m.group(2)))
                 err = " ".join(m.group(3).split())
-                detail = ("theorem %s (%s line %s) no longer checks against the regenerated gen/Detect_gen.v: %s"
-                          % (thm, rel, m.group(2), err if len(err) < 420 else err[:120] + " ... " + err[-280:]))
+                detail = ("theorem %s (%s line %s) no longer checks against the regenerated %s: %s"
+                          % (thm, rel, m.group(2), gen, err if len(err) < 420 else err[:120] + " ... " + err[-280:]))
             else:
                 detail = " ".join(log.split())[-400:]
             out.append(("source-tie:%s" % rel, False, detail))
